@@ -1,4 +1,5 @@
 """C14 — envelope-encrypted seed: round trip, tamper detection, no leak; impl vs model."""
+import struct
 import vlib, rt
 from props.codec import proof_verdict
 
@@ -28,7 +29,7 @@ def field(line, key):
 def run_c14(ctx):
     ctx.rule = ("harness KMS providers (opaque handle of length 16..1024, identity, failing, wrong key, wrong length) x "
                 "plaintexts 32..64 bytes; every single-bit and single-byte modification at every blob position, every "
-                "truncation, extensions; substring scan of the blob for seed and DEK; non-trivial = distinct modified "
+                "truncation, extensions, the header length fields at their extremes, a genuine decrypt straight after every provider fault; substring scan of the blob for seed and DEK; non-trivial = distinct modified "
                 "blob that passes the length pre-checks (the parse succeeds, so the provider / AEAD decide)")
     vlib.prepare(ctx)
     r = ctx.rng
@@ -85,6 +86,15 @@ def run_c14(ctx):
         L = kind.split(":")[1] if ":" in kind else "48"
         for k2 in ("errdec", "wrongkey", "wronglen"):
             mods.append((k2 + ":" + L, pt, blob, blob, "provider-" + k2))
+            # ... and straight afterwards, in the same process and thread, the genuine blob with the genuine
+            # provider: what an earlier failed call left behind must not matter
+            mods.append((kind, pt, blob, blob, "unmodified"))
+        # the two 16-bit length fields of the header at their extremes (sums that do not fit 16 bits included)
+        for dl in [0, 1, 255, 256, 0x7fff, 0x8000, 0xff00] + list(range(0xfff0, 0x10000)):
+            for nl in (12, 0, 11, 13, 0xffff):
+                m = bytearray(blob); struct.pack_into("<HH", m, 0, dl, nl)
+                if bytes(m) != blob:
+                    mods.append((kind, pt, blob, bytes(m), "header"))
     dlines = ["envdec %s %s" % (kind, rt.hx(m)) for kind, _, _, m, _ in mods]
     impl = with_prelude(prelude, dlines)
     # model: parse, then the oracle answers for the one unwrap and the one open it would perform
